@@ -1,7 +1,7 @@
 ------------------------------- MODULE Trace -------------------------------
 (* C02 direction B: validate executions recorded from the real BondList against
    BondListOps.Apply.  TRACE_FILE is a JSON array of traces; a trace is an array of events
-     {op, a, oc, n, bonds, out}
+     {op, a, oc, n, bonds, out}      (a may carry the forms of the arguments, see BondListOps)
    (post-state projection n / bonds after the call; event 1 is always a "construct").
    Every event is judged on its own: the expected post-state is computed from the *logged*
    pre-state, so one run reports every disagreement (printed as <<"MISMATCH", ...>>). *)
@@ -19,6 +19,8 @@ OutMatches(op, a, exp, got) ==
          ToSet(got) = exp /\ NoDupSeq(got)
     [] op = "contains" -> got = exp
     [] op = "independent" -> got = exp
+    \* == and not-!= in both operand orders (foreign objects: as far as Python defines them)
+    [] op = "eq" -> Len(got) >= 2 /\ \A k \in DOMAIN got : got[k] = exp.eq
     [] op = "views" ->
          /\ Len(got.nb) = Len(exp.nb)
          /\ \A k \in DOMAIN exp.nb : ToSet(got.nb[k]) = exp.nb[k] /\ NoDupSeq(got.nb[k])
@@ -29,6 +31,19 @@ OutMatches(op, a, exp, got) ==
          /\ got.eqcopy = exp.eqcopy
          /\ got.cnt = exp.cnt
     [] OTHER -> TRUE
+
+\* the forms in which the driver handed the arguments over are admissible (BondListOps "index
+\* forms"); a logged call outside the domain is a defect of the driver, reported as DOMAIN
+FormsOk(op, a) ==
+  CASE op = "index"     -> Len(a[1]) = 2 \/ Dom_IdxForm(a[1])
+    [] op = "independent" -> a[1] # "index" \/ Len(a[2]) = 2 \/ Dom_IdxForm(a[2])
+    [] op = "add"       -> Len(a) = 3 \/ (Dom_ScalarForm(a[1], a[4][1]) /\ Dom_ScalarForm(a[2], a[4][2]))
+    [] op \in {"remove", "contains"} -> Len(a) = 2 \/ (Dom_ScalarForm(a[1], a[3][1]) /\ Dom_ScalarForm(a[2], a[3][2]))
+    [] op \in {"remove_to", "get_bonds", "offset"} -> Len(a) = 1 \/ Dom_ScalarForm(a[1], a[2])
+    [] op = "construct" -> Len(a) = 2 \/ Dom_RowsForm(a[2], a[3])
+    [] op = "eq"        -> a[1] \in {"list", "obj"}
+    [] OTHER -> TRUE
+DomainOk(e) == IF FormsOk(e.op, e.a) THEN TRUE ELSE PrintT(<<"DOMAIN", tid, l + 1>>)
 
 Judge(e, r) ==
   LET okOc  == r.oc = e.oc
@@ -49,6 +64,7 @@ Next == /\ l < Len(Tr[tid])
         /\ LET e == Tr[tid][l + 1]
                r == Apply(S, e.op, e.a)
            IN /\ Judge(e, r)
+              /\ DomainOk(e)
               \* resynchronise on the logged observation; cmax is the model's own
               /\ S' = [n |-> e.n, B |-> ToSet(e.bonds), cmax |-> IF r.n = e.n /\ r.B = ToSet(e.bonds) THEN r.cmax ELSE MaxDegree(ToSet(e.bonds), e.n)]
 
